@@ -471,6 +471,16 @@ def to_worklist(ctx) -> None:
         return
     mname = maps[0].ast.targets[0].id if isinstance(maps[0].ast, ast.Assign) else maps[0].ast.target.id
     mv = maps[0].ast.value
+    # the map created under another name (the result of an expanded helper): follow single, dominating definitions
+    hops = 0
+    while isinstance(mv, ast.Name) and hops < 4:
+        hops += 1
+        defs_ = [n for n in fv.cfg.nodes if n.kind == "stmt" and isinstance(n.ast, ast.Assign) and len(n.ast.targets) == 1 and is_name(n.ast.targets[0], mv.id)]
+        if len(defs_) != 1 or not fv.cfg.dominates(defs_[0].id, maps[0].id):
+            break
+        maps = [defs_[0]]
+        mname = mv.id
+        mv = defs_[0].ast.value
     is_dd = isinstance(mv, ast.Call) and call_fname(mv) == "defaultdict" and mv.args and is_name(mv.args[0], "list")
     apps = [cs for cs in fv.calls() if isinstance(cs.call.func, ast.Attribute) and cs.call.func.attr == "append" and isinstance(cs.call.func.value, ast.Subscript) and is_name(cs.call.func.value.value, mname)]
     key_of = {id(cs): cs.call.func.value.slice for cs in apps}
@@ -528,8 +538,13 @@ def to_worklist(ctx) -> None:
                 return k.value
         return None
 
-    def col_slice(e, plate: str, colname: str) -> bool:
-        """<plate>.wells[: self.R, <col>]"""
+    def col_slice(e, plate: str, colname: str, at=None) -> bool:
+        """<plate>.wells[: self.R, <col>]  (also through a local name bound once, before the call, to exactly that expression)"""
+        if isinstance(e, ast.Name) and at is not None:
+            defs_ = [n for n in fv.cfg.nodes if n.kind == "stmt" and isinstance(n.ast, ast.Assign) and len(n.ast.targets) == 1 and is_name(n.ast.targets[0], e.id)]
+            others = [n for n in fv.cfg.nodes if n.kind in ("stmt", "for") and n not in defs_ and any(isinstance(x, ast.Name) and x.id == e.id and isinstance(x.ctx, (ast.Store, ast.Del)) for x in ast.walk(n.ast.target if n.kind == "for" else n.ast))]
+            if len(defs_) == 1 and not others and defs_[0].id in body and fv.cfg.dominates(defs_[0].id, at):
+                e = defs_[0].ast.value
         return isinstance(e, ast.Subscript) and attr_of_name(e.value, plate, "wells") and isinstance(e.slice, ast.Tuple) and len(e.slice.elts) == 2 \
             and isinstance(e.slice.elts[0], ast.Slice) and e.slice.elts[0].lower is None and attr_of_name(e.slice.elts[0].upper, selfn, "R") and is_name(e.slice.elts[1], colname)
 
@@ -539,14 +554,14 @@ def to_worklist(ctx) -> None:
         w = f.where(cs.call)
         if is_name(s_lab, "stock"):
             seen.add("stock")
-            ok = is_name(d_lab, "dilution_plate") and col_slice(d_wells, "dilution_plate", col) and is_name(vol, vsrc)
+            ok = is_name(d_lab, "dilution_plate") and col_slice(d_wells, "dilution_plate", col, cs.node) and is_name(vol, vsrc)
             ctrl = fv.controlling(cs.node, within=body)
             ok = ok and any(isinstance(fv.cfg.nodes[d].ast, ast.Compare) and is_name(fv.cfg.nodes[d].ast.left, src) and pol == isinstance(fv.cfg.nodes[d].ast.ops[0], ast.Eq) for d, pol in ctrl)
             ctx.rep.check(ok, rule, f"{f.qualname}/stock-transfer", "stock instructions transfer their own volumes into their own column", "the stock transfer does not move the instruction's volumes into rows [:R] of the instruction's column (only for stock instructions)", where=w)
         elif is_name(s_lab, "diluent"):
             seen.add("diluent")
             want = Poly.symbol(ast.Subscript(value=ast.Attribute(value=ast.Name(id=selfn, ctx=ast.Load()), attr="vmax", ctx=ast.Load()), slice=ast.Name(id=col, ctx=ast.Load()), ctx=ast.Load())) - Poly.symbol(ast.Name(id=vsrc, ctx=ast.Load()))
-            ok = is_name(d_lab, "dilution_plate") and col_slice(d_wells, "dilution_plate", col) and vol is not None and to_poly(vol) == want and not fv.controlling(cs.node, within=body)
+            ok = is_name(d_lab, "dilution_plate") and col_slice(d_wells, "dilution_plate", col, cs.node) and vol is not None and to_poly(vol) == want and not fv.controlling(cs.node, within=body)
             ctx.rep.check(ok, rule, f"{f.qualname}/diluent-transfer", "every column is filled up with vmax[col] - v_src of diluent", f"the diluent volume is `{show(vol) if vol is not None else None}` / target is not rows [:R] of the column: expected self.vmax[col] - v_src for every instruction", where=w)
         elif is_name(s_lab, "dilution_plate") and is_name(d_lab, "dilution_plate"):
             loops = [h for h in fv.cfg.enclosing_loops(cs.node) if fv.cfg.nodes[h].kind == "for" and h != main.id]
@@ -557,7 +572,7 @@ def to_worklist(ctx) -> None:
                 tn = [getattr(e, "id", None) for e in inner.ast.target.elts] if isinstance(inner.ast.target, ast.Tuple) else []
                 it = inner.ast.iter
                 key_ok = (isinstance(it, ast.Subscript) and is_name(it.slice, col)) or (isinstance(it, ast.Call) and call_fname(it) == "get" and it.args and is_name(it.args[0], col))
-                ok = len(tn) == 2 and key_ok and col_slice(s_wells, "dilution_plate", col) and col_slice(d_wells, "dilution_plate", tn[0]) and is_name(vol, tn[1])
+                ok = len(tn) == 2 and key_ok and col_slice(s_wells, "dilution_plate", col, cs.node) and col_slice(d_wells, "dilution_plate", tn[0], cs.node) and is_name(vol, tn[1])
                 ctx.rep.check(ok, rule, f"{f.qualname}/serial-transfer", "serial transfers go from the finished column to each of its targets with the planned volumes",
                               "a serial transfer does not take (target column, volumes) of the current column's list and move them from column `col` to that target", where=w)
             else:
